@@ -18,10 +18,20 @@ BUILD = os.path.join(VERIF, "build")
 COQ = os.path.join(VERIF, "coq")
 HARNESS = os.path.join(VERIF, "harness")
 HARNESS_BIN = os.path.join(BUILD, "harness-target", "release", "sl-harness")
+# Isolated mode (tools/eval_mutant only): VERIF_ISO=<scratch dir> VERIF_REPO=<a worktree of /repo> runs a check
+# against that worktree with its own copy of the harness, case files, evidence and replay output, so that
+# several changed trees can be evaluated at once without touching /repo or /verif/evidence.  The registered
+# commands never set these variables.
+ISO = os.environ.get("VERIF_ISO")
+REPO = os.environ.get("VERIF_REPO", "/repo")
+OUT = ISO or VERIF
+SCRATCH = ISO or BUILD
+if ISO:
+    HARNESS_BIN = os.path.join(ISO, "harness-target", "release", "sl-harness")
 MODEL_BIN = os.path.join(BUILD, "ocaml", "run_model")
 NPROC = 16
 
-TOL = {"f64": Fraction(1, 1 << 30), "f32": Fraction(1, 1 << 13)}
+TOL = {"f64": Fraction(1, 1 << 30), "f32": Fraction(1, 1 << 13), "q": Fraction(1, 1 << 30)}
 
 ALLOWED_AXIOMS = {
     "ClassicalDedekindReals.sig_forall_dec",
@@ -59,18 +69,21 @@ class Case:
         return "%s %s %s %s %d %s %d %s" % (
             self.op, self.ty, self.fam, self.style, len(self.dims),
             " ".join(str(d) for d in self.dims), len(self.nums),
-            " ".join("%x" % num.bits(self.ty, x) for x in self.nums))
+            " ".join(num.enc(self.ty, x) for x in self.nums))
 
     def model_nums(self):
         return self.meta.get("model_nums", self.nums)
 
     def model_key(self):
-        return (self.mop, self.ty, tuple(self.mdims), tuple(num.bits(self.ty, x) for x in self.model_nums()))
+        if self.ty in ("q", "f64"):
+            # an exact-rational twin shares the model evaluation of the f64 case it was derived from
+            return (self.mop, "f64", tuple(self.mdims), tuple(num.key("q", x) for x in self.model_nums()))
+        return (self.mop, self.ty, tuple(self.mdims), tuple(num.key(self.ty, x) for x in self.model_nums()))
 
     def model_line(self):
         mn = self.model_nums()
         return "%s %s %d %s %d %s" % (
-            self.mop, self.ty, len(self.mdims), " ".join(str(d) for d in self.mdims),
+            self.mop, "f64" if self.ty == "q" else self.ty, len(self.mdims), " ".join(str(d) for d in self.mdims),
             len(mn), " ".join(num.tok(x) for x in mn))
 
     def describe(self):
@@ -106,12 +119,25 @@ def sh(cmd, cwd=None, timeout=3600, env=None):
 
 def build_harness():
     """rebuild the harness against /repo's current working tree (hooks on)"""
-    with Lock("cargo"):
-        lock = os.path.join(HARNESS, "Cargo.lock")
+    hdir = HARNESS
+    if ISO:
+        # private copy of the harness crate pointing at the worktree under evaluation
+        hdir = os.path.join(ISO, "harness")
+        if not os.path.exists(hdir):
+            os.makedirs(ISO, exist_ok=True)
+            subprocess.run(["cp", "-r", HARNESS, hdir], check=True)
+            for rel, old, new in (("Cargo.toml", 'path = "/repo"', 'path = "%s"' % REPO),
+                                  (".cargo/config.toml", "/verif/build/harness-target", os.path.join(ISO, "harness-target"))):
+                p = os.path.join(hdir, rel)
+                t = open(p).read()
+                assert old in t, (p, old)
+                open(p, "w").write(t.replace(old, new))
+    with Lock("cargo" if not ISO else "cargo-" + os.path.basename(ISO.rstrip("/"))):
+        lock = os.path.join(hdir, "Cargo.lock")
         if not os.path.exists(lock):
             # Cargo.lock of the harness = the repository's pinned versions
-            subprocess.run(["cp", "/repo/Cargo.lock", lock], check=True)
-        rc, out = sh(["cargo", "build", "--release", "--offline"], cwd=HARNESS, timeout=1800)
+            subprocess.run(["cp", os.path.join(REPO, "Cargo.lock"), lock], check=True)
+        rc, out = sh(["cargo", "build", "--release", "--offline"], cwd=hdir, timeout=1800)
     if rc != 0:
         raise BuildError("harness build failed (the repository or the harness no longer compiles)\n" + out[-4000:])
     return out
@@ -159,7 +185,7 @@ CASE_TIMEOUT = 20
 
 def _run_one(binary, line, idx):
     """a single case in its own process: used to isolate a case that hangs or kills the runner"""
-    path = os.path.join(BUILD, "cases", "one.%d.%d.txt" % (os.getpid(), idx))
+    path = os.path.join(SCRATCH, "cases", "one.%d.%d.txt" % (os.getpid(), idx))
     with open(path, "w") as f:
         f.write(line + "\n")
     try:
@@ -196,7 +222,7 @@ def _run_shard(args):
 def _run_lines(binary, lines, tag):
     if not lines:
         return []
-    d = os.path.join(BUILD, "cases")
+    d = os.path.join(SCRATCH, "cases")
     os.makedirs(d, exist_ok=True)
     nsh = min(NPROC, max(1, len(lines) // 50))
     # balance the load: expensive cases come in runs, so deal them out in a fixed pseudo-random order
@@ -231,7 +257,7 @@ def parse_impl(ty, line):
     parts = line.split(" ")
     kind = parts[0]
     if kind == "OK":
-        return ("OK", [num.from_bits(ty, int(t, 16)) for t in parts[1:] if t])
+        return ("OK", [num.dec(ty, t) for t in parts[1:] if t])
     if kind == "NONE":
         return ("NONE",)
     if kind in ("HANG", "CRASH"):
@@ -284,7 +310,18 @@ def run_model(cases):
 # ----------------------------------------------------------------- comparing
 
 def finite(x):
-    return x == x and x not in (math.inf, -math.inf)
+    return x is not None and x == x and x not in (math.inf, -math.inf)
+
+
+def compare_exact(impl_vals, model_vals):
+    """type q: the generic code run on exact rationals must EQUAL the model's rational instance"""
+    if len(impl_vals) != len(model_vals):
+        return "length %d vs model %d" % (len(impl_vals), len(model_vals))
+    for i, (x, q) in enumerate(zip(impl_vals, model_vals)):
+        if x != q:
+            return "entry %d: implementation on exact rationals %s, model %s (exact comparison)" % (
+                i, "NaN" if x is None else "%s = %.17g" % (x, float(x)), "NaN" if q is None else "%s = %.17g" % (q, float(q)))
+    return None
 
 
 def compare_values(ty, impl_vals, model_vals, tol=None, scale=1):
@@ -325,6 +362,8 @@ def compare(case, impl, model, tol=None, scale=1, none_kinds=("NONE",)):
         return "model: absent/failed, implementation: %s" % (impl[0],)
     if impl[0] != "OK":
         return "model: value, implementation: %s %s" % (impl[0], impl[1] if len(impl) > 1 else "")
+    if case.ty == "q":
+        return compare_exact(impl[1], model[1])
     return compare_values(case.ty, impl[1], model[1], tol, scale)
 
 
@@ -387,6 +426,10 @@ def check_proofs(pid):
     on), re-run coqc on each to collect Print Assumptions, audit the sources.  Returns dict."""
     t0 = time.time()
     files = prop_files(pid)
+    if ISO and os.environ.get("VERIF_SKIP_PROOFS"):
+        # evaluation of a changed tree: the development is the one already checked
+        return {"file": ", ".join("coq/" + f for f in files), "theorems": [], "obligations": 0, "discharged": 0,
+                "axioms": [], "errors": [], "checker_cmd": "skipped (isolated evaluation run)"}
     res = {"file": ", ".join("coq/" + f for f in files), "theorems": [], "obligations": 0, "discharged": 0,
            "axioms": [], "errors": [],
            "checker_cmd": "make -C coq %s && coqc -Q coq SL <each file> (Print Assumptions), Coq 8.16.1" % (
@@ -469,8 +512,7 @@ class Report:
         self.violations.append((kind, text, replay))
 
     def finish(self, proof, streams, rule, extra=None):
-        os.makedirs(os.path.join(VERIF, "evidence"), exist_ok=True)
-        os.makedirs(os.path.join(BUILD, "replay"), exist_ok=True)
+        os.makedirs(os.path.join(OUT, "evidence"), exist_ok=True)
         for e in proof.get("errors", []):
             self.violation("proof", e, {"theorem_file": proof.get("file"), "error": e})
         lines = []
@@ -479,8 +521,8 @@ class Report:
         rc = 0
         if pred or other:
             rc = 1
-            os.makedirs(os.path.join(VERIF, "replay"), exist_ok=True)
-            path = os.path.join(VERIF, "replay", "%s.json" % self.pid)
+            os.makedirs(os.path.join(OUT, "replay"), exist_ok=True)
+            path = os.path.join(OUT, "replay", "%s.json" % self.pid)
             chosen = pred[0] if pred else other[0]
             with open(path, "w") as f:
                 json.dump({"property": self.pid, "kind": chosen[0], "what": chosen[1], "replay": chosen[2],
@@ -521,7 +563,7 @@ class Report:
             "wall_s": round(time.time() - self.t0, 2),
             "violations": len(self.violations),
         }
-        with open(os.path.join(VERIF, "evidence", "%s.json" % self.pid), "w") as f:
+        with open(os.path.join(OUT, "evidence", "%s.json" % self.pid), "w") as f:
             json.dump(ev, f, indent=1, default=str)
         for n in self.notes:
             print(n)
